@@ -184,12 +184,17 @@ def run_case(case, bld, workdir, keep=False, extra_env=None):
                 cur = None
     if cur:
         blocks.append("\n".join(cur))
-    seen = set(san_key(t) for t in res.san)
-    for t in blocks:
-        k = san_key(t, full_err)
-        if k not in seen:
-            seen.add(k)
-            res.san.append(t[:6000])
+    # one report per source location: several ranks (and the log file + stderr) repeat the same report, sometimes with the
+    # stack cut off by interleaved output -- keep the most complete block per "file:line:col: runtime error" header
+    def header(t):
+        m = re.search(r"([\w./-]+:\d+:\d+): runtime error", t)
+        return m.group(1) if m else t[:80]
+    best = {}
+    for t in list(res.san) + blocks:
+        h = header(t)
+        if h not in best or (t.count("#") > best[h].count("#")):
+            best[h] = t
+    res.san = [t[:6000] for t in best.values()]
     return res
 
 
@@ -220,6 +225,8 @@ def run_cases(cases, bld, workdir, jobs=None, progress=None):
 def san_key(text, context=""):
     """stable key of a sanitizer report: kind + first PnetCDF frame (function, file)"""
     kind = "unknown"
+    if "AddressSanitizer failed to allocate" in text and "ERROR: AddressSanitizer" not in text:
+        return "alloc|huge-allocation-refused"
     m = re.search(r"ERROR: AddressSanitizer: ([\w-]+)", text)
     if m:
         kind = "asan:" + m.group(1)
